@@ -253,6 +253,45 @@ class C06(Prop):
         return group, sa, sb, src, problems
 
     def oracle(self, ctx, ev):
+
+        # zero operands (literal zeros and 0*A): the constructor shortcuts must give the shape and free indices of the operation
+        import ufl as _u
+        import gen as _g
+        import random as _r
+        rz = _r.Random(ctx.seed * 31 + 6)
+        Gz = _g.Gen(rz, gdim=2, math=False, compound=False, derivs=False, reuse=0.5)
+        self.zero_bad = []
+        nz = 0
+        mats = {sh: cs[0] for sh, cs in Gz.coeffs.items() if len(sh) == 2}
+        vecs = {sh: cs[0] for sh, cs in Gz.coeffs.items() if len(sh) == 1}
+        unary = [("transpose", _u.transpose), ("sym", _u.sym), ("skew", _u.skew), ("dev", _u.dev), ("tr", _u.tr)]
+        for sh, A in mats.items():
+            for nm, op in unary:
+                if nm != "transpose" and sh[0] != sh[1]:
+                    continue
+                for Z in (_u.zero(*sh), 0 * A, _u.classes.Zero(sh)):
+                    try:
+                        want, got = op(A), op(Z)
+                    except Exception:  # noqa
+                        continue
+                    nz += 1
+                    if tuple(want.ufl_shape) != tuple(got.ufl_shape) or tuple(want.ufl_free_indices) != tuple(got.ufl_free_indices):
+                        self.zero_bad.append("%s of a zero of shape %s has shape %s, of a non-zero operand %s" % (nm, sh, tuple(got.ufl_shape), tuple(want.ufl_shape)))
+            for shv, v in vecs.items():
+                for nm, op, a, b in (("dot", _u.dot, A, v), ("outer", _u.outer, A, v), ("dot", _u.dot, v, A), ("outer", _u.outer, v, A)):
+                    for za, zb in ((0 * a, b), (a, 0 * b), (_u.zero(*a.ufl_shape), b)):
+                        try:
+                            want = op(a, b)
+                        except Exception:  # noqa
+                            continue
+                        try:
+                            got = op(za, zb)
+                        except Exception as ex:  # noqa
+                            self.zero_bad.append("%s with a zero operand of shapes %s, %s raises %s" % (nm, a.ufl_shape, b.ufl_shape, type(ex).__name__)); continue
+                        nz += 1
+                        if tuple(want.ufl_shape) != tuple(got.ufl_shape):
+                            self.zero_bad.append("%s with a zero operand of shapes %s, %s has shape %s instead of %s" % (nm, a.ufl_shape, b.ufl_shape, tuple(got.ufl_shape), tuple(want.ufl_shape)))
+        ev.cov["zero_operand_shape_checks"] = nz
         from translate import compound
         rng = random.Random(ctx.seed * 4243 + 606)
         fam = [f for f in compound.family() if f[0] not in compound.DIFF_GROUPS and f[0] != "innerswap"]
@@ -285,6 +324,8 @@ class C06(Prop):
                     out.append(Witness("lowered %s of operand shapes %s %s: %s :: %s" % (group, sa, sb, problems[0], str(src)[:160]), key,
                                        dict(kind="value", group=group, shA=sa, shB=sb, seed=ctx.seed, k=k, problems=problems[:3])))
         out += self.diff_oracle(ctx, rng)
+        for zb in getattr(self, "zero_bad", [])[:1]:
+            out.append(Witness("compound operator on a zero operand: " + zb, "C06:zero-operand-shape:" + zb.split(" ")[0], dict(kind="zero-shape", seed=ctx.seed, detail=zb)))
         ev.cov["oracle_cases"] = nchk
         return out
 
